@@ -2,9 +2,9 @@
 Driver entry for property C18 (model: Molli.Model.Jobmap). One request payload (a whole history) in, one line out.
 
   hist <r|s> <items> <predest> <plans> <runs>
-     items   = key:subs,…          subs = `-` (single job) or the number of sub-jobs
+     items   = keyhex:subs,…       subs = `-` (single job) or the number of sub-jobs   (keys and job names hex-encoded UTF-8)
      predest = key=markerhex,… | -  (entries of the destination before the first run)
-     plans   = job=PLAN,… | -       PLAN = S | F<c> | W<c> | K<signal> | N<n>/<c> | O      (default S)
+     plans   = job=PLAN,… | -       PLAN = S | F<c> | W<c> | K<signal> | N<n>/<c> | U<n>/<c> | O      (default S)
      runs    = tag:strict[:reset];…  strict = 1 | 0; reset = 1: the destination is replaced by an empty one before the run
   → per run, joined by ` | `:
      `ex=<executed jobs, sorted,> dest=<key=valuehex sorted,> cache=<job=code/payloadhex|- sorted,> att=<job=n,>`
@@ -25,7 +25,9 @@ def strOfHex? (s : String) : Option String := do
 
 def parseItem? (s : String) : Option Item :=
   match s.splitOn ":" with
-  | [k, n] => if n == "-" then some ⟨k, none⟩ else n.toNat?.map fun n => ⟨k, some n⟩
+  | [k, n] => do
+    let k ← strOfHex? k
+    if n == "-" then some ⟨k, none⟩ else n.toNat?.map fun n => ⟨k, some n⟩
   | _ => none
 
 def parsePlan? (s : String) : Option Plan :=
@@ -38,11 +40,15 @@ def parsePlan? (s : String) : Option Plan :=
     match (s.drop 1).toString.splitOn "/" with
     | [n, c] => do pure (.okFrom (← n.toNat?) (← c.toNat?))
     | _ => none
+  else if s.startsWith "U" then
+    match (s.drop 1).toString.splitOn "/" with
+    | [n, c] => do pure (.okUntil (← n.toNat?) (← c.toNat?))
+    | _ => none
   else none
 
 def parseKV? {α : Type} (f : String → Option α) (s : String) : Option (String × α) :=
   match s.splitOn "=" with
-  | [k, v] => (f v).map fun v => (k, v)
+  | [k, v] => do pure (← strOfHex? k, ← f v)
   | _ => none
 
 /-- a run and whether the destination is replaced by a new empty one before it -/
@@ -56,13 +62,14 @@ def parseRun? (plans : List (String × Plan)) (s : String) : Option (Run × Bool
 def sortS (l : List String) : List String := l.mergeSort (fun a b => !(b < a))
 
 def showState (src : List Item) (destKeys : List String) (st : St) (ex : List String) : String :=
-  let jobs := sortS ((src.flatMap jobNames).eraseDups)
-  let keys := sortS destKeys.eraseDups
-  let d := keys.filterMap fun k => (st.dest k).map fun v => k ++ "=" ++ hexS v
-  let c := jobs.filterMap fun j => (st.cache j).map fun e =>
-    j ++ "=" ++ toString e.code ++ "/" ++ (match e.payload with | some p => hexS p | none => "-")
-  let a := jobs.filterMap fun j => if st.attempts j = 0 then none else some (j ++ "=" ++ toString (st.attempts j))
-  s!"ex={",".intercalate (sortS ex)} dest={",".intercalate d} cache={",".intercalate c} att={",".intercalate a}"
+  let byHex (l : List String) : List (String × String) := ((l.eraseDups).map fun k => (hexS k, k)).mergeSort (fun a b => !(b.1 < a.1))
+  let jobs := byHex (src.flatMap jobNames)
+  let keys := byHex destKeys
+  let d := keys.filterMap fun (h, k) => (st.dest k).map fun v => h ++ "=" ++ hexS v
+  let c := jobs.filterMap fun (h, j) => (st.cache j).map fun e =>
+    h ++ "=" ++ toString e.code ++ "/" ++ (match e.payload with | some p => hexS p | none => "-")
+  let a := jobs.filterMap fun (h, j) => if st.attempts j = 0 then none else some (h ++ "=" ++ toString (st.attempts j))
+  s!"ex={",".intercalate (sortS (ex.map hexS))} dest={",".intercalate d} cache={",".intercalate c} att={",".intercalate a}"
 
 def handle (payload : String) : String :=
   match words payload with
